@@ -592,10 +592,10 @@ theorem enqueue_ext {cfg : Cfg} {b b' : BSess} {m : Message} {g : Nat} (h : enqu
   unfold enqueue at h
   split at h
   · split at h
-    · injection h with h; subst h; exact ⟨rfl, rfl, rfl, ⟨[], by simp⟩, ⟨[(g, m)], rfl⟩⟩
+    · injection h with h; subst h; exact ⟨rfl, rfl, rfl, ⟨[], by simp⟩, ⟨[(g, applyQOS b m)], rfl⟩⟩
     · cases h
   · split at h
-    · injection h with h; subst h; exact ⟨rfl, rfl, rfl, ⟨[m], rfl⟩, ⟨[], by simp⟩⟩
+    · injection h with h; subst h; exact ⟨rfl, rfl, rfl, ⟨[applyQOS b m], rfl⟩, ⟨[], by simp⟩⟩
     · cases h
 
 theorem fanTemp_pw (cfg : Cfg) (c : ConnId) (m : Message) (g : Nat) :
